@@ -52,6 +52,11 @@ class TocRenderer(HtmlRenderer):
         items = block_token.tokenize(lines)
         return items[0] if items else None
 
+    def render_document(self, token):
+        # the table of contents belongs to the document being rendered
+        self._headings = []
+        return super().render_document(token)
+
     def render_heading(self, token):
         """
         Overrides super().render_heading; stores rendered heading first,
